@@ -63,7 +63,7 @@ class Query:
     def __init__(self, name, src, entry, desc, defs=(), link=(), ll2c=(), extra_c=(), cbmc=(), unwind=2, max_unwind=96,
                  timeout=600, mem_gb=24, objbits=10, witness=True, validate=24, small_mask=0, clang=(), tiers=('quick', 'thorough'),
                  stubs=(), assumptions=(), native_extra=(), weight=1, kf_defs=(), expect_fail_label=None, unwindset=None,
-                 native_defs=(), solver=()):
+                 native_defs=(), solver=(), conc=False, nt=3, rounds=24, yield_atomics=False):
         self.name = name; self.src = src; self.entry = entry; self.desc = desc
         self.defs = list(defs); self.link = list(link); self.ll2c = list(ll2c); self.extra_c = list(extra_c)
         self.cbmc = list(cbmc); self.unwind = unwind; self.max_unwind = max_unwind; self.timeout = timeout
@@ -72,6 +72,7 @@ class Query:
         self.assumptions = list(assumptions); self.native_extra = list(native_extra); self.weight = weight
         self.kf_defs = list(kf_defs); self.expect_fail_label = expect_fail_label
         self.unwindset = dict(unwindset or {}); self.native_defs = list(native_defs); self.solver = list(solver)
+        self.conc = conc; self.nt = nt; self.rounds = rounds; self.yield_atomics = yield_atomics
 
 
 def load_cache():
@@ -162,12 +163,13 @@ class Runner:
         defs = ['-D' + x for x in q.defs + q.kf_defs] + (['-DWITNESS'] if witness else [])
         lls = []
         hl = os.path.join(d, tag + '_h.ll')
-        rc, out, _, _ = sh(CLANG + q.clang + defs + [os.path.join(HARNESS, q.src), '-o', hl], timeout=300)
+        cl = CLANG + q.clang + (['-include', os.path.join(ENGINE, 'rt', 'shim_std.hpp')] if q.conc else [])
+        rc, out, _, _ = sh(cl + defs + [os.path.join(HARNESS, q.src), '-o', hl], timeout=300)
         if rc != 0: raise RuntimeError('clang failed on harness %s:\n%s' % (q.src, out[-3000:]))
         lls.append(hl)
         for k, rel in enumerate(q.link):
             ol = os.path.join(d, '%s_l%d.ll' % (tag, k))
-            rc, out, _, _ = sh(CLANG + q.clang + defs + [os.path.join(REPO, rel), '-o', ol], timeout=300)
+            rc, out, _, _ = sh(cl + defs + [os.path.join(REPO, rel), '-o', ol], timeout=300)
             if rc != 0: raise RuntimeError('clang failed on %s:\n%s' % (rel, out[-3000:]))
             lls.append(ol)
         al = os.path.join(d, tag + '_all.ll')
@@ -179,8 +181,12 @@ class Runner:
         cf = os.path.join(d, tag + '.c')
         cmd = [sys.executable, os.path.join(ENGINE, 'll2c.py'), al, '-o', cf, '--entry', q.entry, '--dispatch', 'auto'] + q.ll2c
         for s_ in q.stubs: cmd += ['--stub', s_]
+        if q.conc: cmd += ['--conc', '--entry', 'verif_on_quiescence'] + (['--yield-atomics'] if q.yield_atomics else [])
         rc, out, _, _ = sh(cmd, timeout=600)
         if rc != 0: raise RuntimeError('ll2c failed:\n' + out[-3000:])
+        if q.conc:
+            txt = open(cf).read()
+            open(cf, 'w').write('#define VERIF_NT %d\n#define VERIF_ROUNDS %d\n' % (q.nt, q.rounds) + txt + '\n' + open(os.path.join(ENGINE, 'rt', 'sched.c')).read())
         if q.extra_c:
             with open(cf, 'a') as f:
                 for e in q.extra_c:
@@ -195,7 +201,7 @@ class Runner:
 
     def cbmc_cmd(self, q, cfile, bounds, default, extra):
         us = ','.join('%s:%d' % kv for kv in sorted(bounds.items()))
-        cmd = ['cbmc', cfile, '--function', 'f_' + q.entry, '--object-bits', str(q.objbits), '--unwind', str(default), '--verbosity', '8'] + CBMC_BASE + q.cbmc + q.solver + extra
+        cmd = ['cbmc', cfile, '--function', ('verif_sched_main' if q.conc else 'f_' + q.entry), '--object-bits', str(q.objbits), '--unwind', str(default), '--verbosity', '8'] + CBMC_BASE + q.cbmc + q.solver + extra
         if us: cmd += ['--unwindset', us]
         return cmd
 
@@ -271,7 +277,7 @@ class Runner:
 
     def gcc_build(self, q, d, cfile):
         exe = os.path.join(d, 'gccrt')
-        rc, out, _, _ = sh(['gcc', '-O1', '-w', '-DVERIF_GCC', '-DVERIF_ENTRY=f_' + q.entry, cfile, os.path.join(ENGINE, 'rt', 'gcc_rt.c'), '-lm', '-o', exe], timeout=600)
+        rc, out, _, _ = sh(['gcc', '-O1', '-w', '-DVERIF_GCC', '-DVERIF_ENTRY=' + ('verif_sched_main' if q.conc else 'f_' + q.entry), cfile, os.path.join(ENGINE, 'rt', 'gcc_rt.c'), '-lm', '-o', exe], timeout=600)
         if rc != 0: raise RuntimeError('gcc build of generated C failed:\n' + out[-3000:])
         return exe
 
@@ -282,7 +288,7 @@ class Runner:
 
     def validate(self, q, d, cfile, rec):
         """translator validation: generated C (gcc) vs native build of the same harness on identical input streams"""
-        if q.validate <= 0:
+        if q.validate <= 0 or q.conc:
             rec['validated_streams'] = 0; return True
         nat = self.native_build(q, d); g = self.gcc_build(q, d, cfile)
         env = dict(os.environ, ASAN_OPTIONS='detect_leaks=0')
@@ -299,6 +305,18 @@ class Runner:
             if a.startswith('PASS'): nontriv += 1
         rec['validated_streams'] = agree; rec['validated_reaching_end'] = nontriv
         return True
+
+    def replay_conc(self, q, d, inputs, label, rec, cfile):
+        g = self.gcc_build(q, d, cfile)
+        rdir = os.path.join(VERIF, 'replays', self.prop); os.makedirs(rdir, exist_ok=True)
+        rp = os.path.join(rdir, q.name + '.inputs')
+        with open(rp, 'w') as f: f.write('\n'.join(str(v) for v in inputs) + '\n')
+        json.dump(dict(property=self.prop, query=q.name, harness=q.src, entry=q.entry, defs=q.defs + q.kf_defs, link=q.link, failing_assertion=label, inputs=inputs, conc=True,
+                       how='schedule + data inputs replayed on the gcc build of the sequentialised C (generated from the real code): python3 checks/check.py %s --only %s reproduces it' % (self.prop, q.name)),
+                  open(os.path.join(rdir, q.name + '.json'), 'w'), indent=1)
+        rc, out, _, _ = sh([g, rp], timeout=120)
+        ll = self.last_line(out); rec['replay_native'] = 'sequentialised-C replay: ' + ll[:300]
+        return ll.startswith('ASSERT-FAIL'), os.path.join(rdir, q.name + '.json')
 
     def replay(self, q, d, inputs, label, rec):
         nat = self.native_build(q, d) if not os.path.exists(os.path.join(d, 'native')) else os.path.join(d, 'native')
@@ -345,7 +363,7 @@ class Runner:
                 inputs = trace_inputs(out, r0['pid'])
                 if inputs is None:
                     rec['status'] = 'INCONCLUSIVE'; rec['verdict'] = 'NO-TRACE'; return rec
-                ok, rp = self.replay(q, d, inputs, r0['desc'], rec)
+                ok, rp = self.replay_conc(q, d, inputs, r0['desc'], rec, cfile) if q.conc else self.replay(q, d, inputs, r0['desc'], rec)
                 rec['replay'] = rp
                 if ok:
                     rec['status'] = 'VIOLATION'
